@@ -1,5 +1,7 @@
 package slicez
 
+import "unsafe"
+
 // Diff compares slices s1 and s2, puts elements from s1 that do not exist in s2 into dst, and returns it.
 func Diff[T comparable](dst, s1, s2 []T) []T {
 	dst = dst[:0]
@@ -14,6 +16,10 @@ func Diff[T comparable](dst, s1, s2 []T) []T {
 	m := make(map[T]struct{}, len(s2))
 	for i := range s2 {
 		m[s2[i]] = struct{}{}
+	}
+
+	if writesAhead(dst, s1) {
+		s1 = append([]T(nil), s1...)
 	}
 
 	for _, v := range s1 {
@@ -58,12 +64,30 @@ func Intersect[T comparable](dst, s1, s2 []T) []T {
 		m[s2[i]] = struct{}{}
 	}
 
+	if writesAhead(dst, s1) {
+		s1 = append([]T(nil), s1...)
+	}
+
 	for _, v := range s1 {
 		if _, ok := m[v]; ok {
 			dst = append(dst, v)
 		}
 	}
 	return dst
+}
+
+// writesAhead reports whether elements appended to dst[:0] would land on elements
+// of s that have not been read yet: dst starts inside s, behind its first element
+// (dst = s2[:0] where s2 is a part of s1).
+func writesAhead[T any](dst, s []T) bool {
+	if cap(dst) == 0 || len(s) == 0 {
+		return false
+	}
+
+	size := unsafe.Sizeof(s[0])
+	d0 := uintptr(unsafe.Pointer(&dst[:1][0]))
+	s0 := uintptr(unsafe.Pointer(&s[0]))
+	return d0 > s0 && d0 < s0+uintptr(len(s))*size
 }
 
 // IntersectInPlaceFirst compares s1 and s2, moves elements from s1 that are also present in s2 to the front of s1,
